@@ -1,6 +1,6 @@
 """Property -> rules wiring and MANIFEST metadata."""
 from . import facts
-from .rules import f5_trace, f6_kinds, f7_roots, f4_gc, f4_chan, f4_sched, f4_vm, f1_isa, f9_casts, f10_parity, f2_emit, f2_visit, f4_exc, f4_cache, f4_obj, f11_peephole, f8_hazards, f1c_ops
+from .rules import f5_trace, f6_kinds, f7_roots, f4_gc, f4_chan, f4_sched, f4_vm, f1_isa, f9_casts, f10_parity, f2_emit, f2_visit, f4_exc, f4_iter, f4_cache, f4_obj, f11_peephole, f8_hazards, f1c_ops
 
 
 def D(rec):
@@ -60,6 +60,7 @@ def c20(rec, tier):
     F = D(rec)
     f6_kinds.run(rec, F)
     f4_gc.relocation_layout(rec, F)
+    f4_gc.growth_progress(rec, F)
     f4_gc.sweep_siblings(rec, F)
     f4_gc.alloc_rooting(rec, F)
     f4_gc.gc_phase_order(rec, F)
@@ -200,6 +201,10 @@ def c11(rec, tier):
     f9_casts.run_index_discipline(rec, F)
     f9_casts.run_natives(rec, F, S)
     f9_casts.run_arity_enforcement(rec, F, S)
+    f4_iter.run_quota(rec, F)
+    f4_iter.run_hints(rec, F)
+    f4_iter.run_utf8(rec, F)
+    f4_gc.growth_progress(rec, F)
 
 
 def c16(rec, tier):
@@ -219,6 +224,7 @@ def c16(rec, tier):
     f9_casts.run_library_indexers(rec, F)
     f9_casts.run_vm_sizes(rec, F)
     f4_vm.hook_exit(rec, F)
+    f4_gc.growth_progress(rec, F)
 
 
 def c17(rec, tier):
